@@ -1,3 +1,4 @@
+//! (Own copy per world: a renamed or removed palette type must only stop the worlds that use it.)
 //! Generic aliases `XC<T>` = "color type X with component (or collection) type T".
 
 use palette::cam16::{
